@@ -686,6 +686,8 @@ public:
 			o += ",\"oper\":" + jstr(getOperatorSpelling(FD->getOverloadedOperator()));
 		o += ",\"kind\":" + jstr(kind);
 		if (FD->isVariadic()) o += ",\"va\":1";
+		// internal linkage (static / anonymous namespace): a helper private to its unit
+		if (!isa<CXXMethodDecl>(FD) && !FD->isExternallyVisible()) o += ",\"internal\":1";
 		// declaration file(s): where the first declaration lives (header => offered API)
 		o += ",\"declfile\":" + jstr(fileOf(FD->getCanonicalDecl()->getLocation()));
 		o += ",\"params\":[";
